@@ -26,6 +26,12 @@ N_SPECIAL_C14 = 900      # 600..899: some spans carry an empty application name
 SIZES_SPECIAL = {"C14": {"quick": 60, "thorough": N_SPECIAL_C14},
                  "C15": {"quick": 24, "thorough": 300}}
 
+# delivery-layout family: wc.LAYOUT_BASE + 0..N_LAYOUT-1 (nested directories,
+# one JSON document per line, one single file given as `filepath`)
+N_LAYOUT = 200
+SIZES_LAYOUT = {"C14": {"quick": 40, "thorough": N_LAYOUT},
+                "C15": {"quick": 20, "thorough": 100}}
+
 ASSUMPTIONS = [
     "every process of a history is the real tel2puml.__main__.main_handler in "
     "its own forked child; only the input directory, the SQLite file and the "
@@ -87,6 +93,10 @@ def build_units(prop, tier, seed, scale, findings):
         for i in sorted(r.sample(range(N_SPECIAL_C14),
                                  min(ns, N_SPECIAL_C14))):
             units.append(c14_unit(wc.SPECIAL_BASE + i))
+        nl = scaled(SIZES_LAYOUT[prop][tier], scale)
+        rl = random.Random(core.derive(seed, prop, "layout-datasets"))
+        for i in sorted(rl.sample(range(N_LAYOUT), min(nl, N_LAYOUT))):
+            units.append(c14_unit(wc.LAYOUT_BASE + i))
         return units
     n_s, n_all = SIZES[prop][tier]
     n_s, n_all = scaled(n_s, scale), scaled(n_all, scale)
@@ -117,7 +127,11 @@ def build_units(prop, tier, seed, scale, findings):
     rs = random.Random(core.derive(seed, prop, "special-datasets"))
     special = [wc.SPECIAL_BASE + i for i in sorted(
         rs.sample(range(N_SPECIAL), min(ns, N_SPECIAL)))]
-    for i in idxs[n_all:] + special:
+    nl = scaled(SIZES_LAYOUT[prop][tier], scale)
+    rl = random.Random(core.derive(seed, prop, "layout-datasets"))
+    layout = [wc.LAYOUT_BASE + i for i in sorted(
+        rl.sample(range(N_LAYOUT), min(nl, N_LAYOUT)))]
+    for i in idxs[n_all:] + special + layout:
         hr = random.Random(core.derive(seed, prop, "history", i))
         for _ in range(2):
             units.append({"kind": "c15", "idx": i, "hash_class": i % 16,
